@@ -32,6 +32,9 @@ SamplePairs(samples, k, rc) == [i \in 1..Len(samples) |-> ObsPairs(AllFaObs(samp
 BuildTable(samples, names, k, rc) ==
    [k |-> k, rc |-> rc, names |-> names, rows |-> RowsOfPairs(SamplePairs(samples, k, rc))]
 
+\* `ska build` refuses (no output) when some sample has no valid window at this k
+BuildRefused(samples, k, rc) == \E i \in 1..Len(samples) : AllFaObs(samples[i], k, rc) = {}
+
 NSamples(T) == Len(T.names)
 AllGap(n) == [i \in 1..n |-> Gap]
 IsAllGap(bases) == \A i \in 1..Len(bases) : bases[i] = Gap
